@@ -186,6 +186,7 @@ mixed rt_object() {
   r = ({ sv, scratch, ob_ref, read_file("/scratch/c16save.o") });
   return r;
 }
+mixed restore_only(string t) { return restore_variable(t); }
 mixed restore_text(string t) { mixed v = restore_variable(t); string t2 = save_variable(v); mixed v2 = restore_variable(t2); return ({ v, t2, v2, save_variable(v2) }); }
 '''
 
@@ -290,10 +291,19 @@ def texts(draw):
     return "".join(b)
 
 
+FOLLOW_UP = '({7,8,9,({"a",1.5,}),(["k":({2,3,}),]),})'
+_follow_ref = {}
+
+
 def run_text(ctx, w, t):
     src = PROG.replace("VALUE", "0")
     w.write("t/c16.c", src)
-    res = w.run([["load", "t/c16.c"], ["call", "t/c16", "restore_text", arg(t)]])
+    if id(w) not in _follow_ref:
+        r0 = w.run([["load", "t/c16.c"], ["call", "t/c16", "restore_only", arg(FOLLOW_UP)]])
+        _follow_ref[id(w)] = (r0.step(1) or {}).get("v")
+    # the restore of the generated text is followed, with no save in between, by the restore of a fixed valid text: whatever the first
+    # one left behind (it may have failed half way) must not change what the second one yields
+    res = w.run([["load", "t/c16.c"], ["call", "t/c16", "restore_text", arg(t)], ["call", "t/c16", "restore_only", arg(t)], ["call", "t/c16", "restore_only", arg(FOLLOW_UP)]])
     info = "text %r" % (t,)
     if res.timed_out:
         ctx.inconclusive["timeout"] += 1
@@ -301,6 +311,10 @@ def run_text(ctx, w, t):
     cr = res.crash()
     if cr:
         return ("crash-in-restore:" + cr[1][:70], info + "\n" + cr[2][:2500]), None
+    f3 = res.step(3) or {}
+    if f3.get("st") != "val" or f3.get("v") != _follow_ref[id(w)]:
+        return ("restore-depends-on-previous-restore", "after restoring the text below, restore_variable(%r) gave %.300r; in a fresh driver it gives %.300r\n%s" % (
+            FOLLOW_UP, f3, _follow_ref[id(w)], info)), None
     r = res.step(1) or {}
     if r.get("st") == "err":
         return None, "rejected"
